@@ -80,3 +80,24 @@ package readline
 //@   loop 1 invariant i >= 1 && i <= max(vii, 0) + 1 && (i == 1 ==> *rl.line == old(*rl.line) && rl.cursor.pos == old(rl.cursor.pos))
 //@   loop 1 invariant i == 2 && old(clean(killed(rl))) ==> *rl.line == old(*rl.line)[:old(kb(rl))] + core.stripz(old(killed(rl))) + old(*rl.line)[old(kb(rl)):]
 //@   loop 1 decreases vii - i + 1
+
+//@ func (*Shell).viDeleteChar
+//@   props C16 C01
+//@   terminates
+//@   requires cmdok(rl) && !rl.Buffers.selected
+//@   let n0 = len(*rl.line)
+//@   ensures [P1P2-count1] old(len(rl.Iterations.times)) == 0 ==> killyank(rl, n0)
+//@   ensures [one-rune] old(len(rl.Iterations.times)) == 0 && n0 > 0 && old(kb(rl)) < n0 ==> len(*rl.line) == n0 - 1 && rl.cursor.pos == old(kb(rl))
+//@   loop 1 invariant cmdok(rl) && !rl.Buffers.selected && vii != 0 && (old(len(rl.Iterations.times)) == 0 ==> vii == 1) && i >= 1 && i <= max(vii, 0) + 1 && killed(rl) == old(killed(rl))
+//@   loop 1 invariant i == 1 ==> *rl.line == old(*rl.line) && rl.cursor.pos == old(kb(rl)) && len(cutBuf) == 0
+//@   loop 1 invariant i == 2 && vii == 1 ==> rl.cursor.pos == old(kb(rl)) && *rl.line == old(*rl.line)[:old(kb(rl))] + old(*rl.line)[old(kb(rl)) + 1:] && cutBuf == old(*rl.line)[old(kb(rl)):old(kb(rl)) + 1]
+//@   loop 1 decreases vii - i + 1
+
+//@ func (*Shell).viPutBefore
+//@   props C16 C01
+//@   terminates
+//@   requires cmdok(rl) && clean(killed(rl))
+//@   ensures [put-once] old(len(rl.Iterations.times)) == 0 && !old(rl.Buffers.waiting) && !old(rl.Buffers.selected) && old(len(killed(rl))) > 0 && old(killed(rl))[old(len(killed(rl))) - 1] != '\n' ==> *rl.line == old(*rl.line)[:old(kb(rl))] + core.stripz(old(killed(rl))) + old(*rl.line)[old(kb(rl)):]
+//@   loop 1 invariant cmdok(rl) && vii != 0 && (old(len(rl.Iterations.times)) == 0 ==> vii == 1) && i >= 1 && i <= max(vii, 0) + 1 && 0 <= pos && clean(buffer)
+//@   loop 1 invariant old(len(killed(rl))) > 0 && old(killed(rl))[old(len(killed(rl))) - 1] != '\n' && !old(rl.Buffers.waiting) && !old(rl.Buffers.selected) ==> buffer == old(killed(rl)) && pos == old(kb(rl)) && (i == 1 ==> *rl.line == old(*rl.line)) && (i == 2 ==> *rl.line == old(*rl.line)[:old(kb(rl))] + core.stripz(old(killed(rl))) + old(*rl.line)[old(kb(rl)):])
+//@   loop 1 decreases vii - i + 1
